@@ -493,6 +493,29 @@ func c18Gen(tier string, rng *rand.Rand, emit func(string)) map[string]interface
 			}
 		}
 	}
+	// 2d. two and three instances built with the WithClient constructor on the SAME client object: each joins the chain in front of the
+	// earlier ones (share=1: the model chains them); own interceptors per instance, bookkeeping on each, requests through each
+	nShare := 0
+	for _, cl := range []string{"s0", "n", "d"} {
+		for _, third := range []string{"", "inst c0 4,5"} {
+			for _, fail := range []string{"-", "0", "2", "5", "3,1"} {
+				for vi, v := range c18Verbs {
+					if (nShare+vi)%2 != 0 && tier != "thorough" {
+						continue
+					}
+					ops := []string{"req " + v, "inst c0 2,3", "@1 req " + v, "req " + v}
+					last := 1
+					if third != "" {
+						ops = append(ops, third, "@2 req "+v)
+						last = 2
+					}
+					ops = append(ops, "@1 add 6", "rem 1", "@"+strconv.Itoa(last)+" req "+v, "@1 clear", "@1 req "+v, "req "+v, "@"+strconv.Itoa(last)+" clear", "clear", "@1 req "+v)
+					emit("share=1 clients=" + cl + " fail=" + fail + " kind=" + c17ErrKinds[nShare%len(c17ErrKinds)] + " tfail=- st=200 defs=-+0 new=c0:0,1: " + strings.Join(ops, " ; "))
+					nShare++
+				}
+			}
+		}
+	}
 	// 3. random histories: <= 6 bookkeeping ops, 0..6 interceptors (duplicates), 0..3 SetHTTPClient, requests interleaved
 	stats := map[string]int{}
 	for i := 0; i < nRandom; i++ {
@@ -611,7 +634,7 @@ func c18Gen(tier string, rng *rand.Rand, emit func(string)) map[string]interface
 	}
 	return map[string]interface{}{"exhaustive": false,
 		"exhaustive_scope": fmt.Sprintf("all histories of length 1..%d over %d ops (add/rem with duplicates, clear, set, req) x %d initial configurations, each followed by a request", maxLen, len(alphabet), len(heads)),
-		"exhaustive_cases": exhaustive, "directed_cases": directed, "caller_slice_cases": nDefaults, "multi_instance_cases": nMulti, "error_kinds": c17ErrKinds, "status_codes": c18Statuses, "random_cases": nRandom, "random_op_mix": stats}
+		"exhaustive_cases": exhaustive, "directed_cases": directed, "caller_slice_cases": nDefaults, "multi_instance_cases": nMulti, "shared_client_cases": nShare, "error_kinds": c17ErrKinds, "status_codes": c18Statuses, "random_cases": nRandom, "random_op_mix": stats}
 }
 
 func init() { register("C18", &Prop{Gen: c18Gen, Run: c18Run, CaseTimeout: 5 * time.Second}) }
